@@ -23,6 +23,18 @@ class Ctx:
         self.tier = tier
         self.root = root
 
+    def rule(self, fn, *args, **kw):
+        """Run one rule; an anchor problem in it is recorded (fail-closed at the end) but does not hide the other rules' verdicts."""
+        try:
+            return fn(self, *args, **kw)
+        except AnalysisError as e:
+            self.chk.analysis_errors.append(f"{fn.__name__}: {e}")
+        except Exception as e:  # checker bug inside one rule
+            import traceback
+            tb = traceback.format_exc().strip().splitlines()
+            self.chk.analysis_errors.append(f"{fn.__name__}: checker exception {tb[-1]} @ {tb[-3].strip() if len(tb) > 2 else ''}")
+        return None
+
     def data_path(self, *p: str) -> str:
         return os.path.join(self.root, *p)
 
@@ -85,6 +97,10 @@ def run_prop(prop: str, tier: str, root: str, overlays: Optional[Dict[str, str]]
             print(f"  rule {r}: {n} instance(s)" + (f" (floor {c.floors[r]})" if r in c.floors else ""))
     for ln in ctx.chk.lines:
         print(ln)
+    for e in ctx.chk.analysis_errors:
+        print(f"ANALYSIS-ERROR property={prop} {e}")
+    if ctx.chk.analysis_errors and rc == 0:
+        rc = 2
     ctx.last = ctx.chk  # type: ignore[attr-defined]
     run_prop.last = ctx.chk  # type: ignore[attr-defined]
     return rc
